@@ -230,3 +230,15 @@ PROPS["C14"] = {
     "level_text": "Machine-checked Lean 4 theorems: storage_failures_invisible (one iteration of run: from Sim-related worlds — same context, apps, clock, scripts; arbitrary storage contents — two runs that differ in which storage operations fail end the same way in Sim-related worlds, i.e. with equal visible traces), faulty_run_looks_healthy, storage_failures_invisible_oneshot, storage_failures_invisible_history (any number of iterations, any failure script in each: by induction); they rest on Lemmas/SMSim: the simulation relation Sim, invisibility of every storage/metric-only step (inv_*) and congruence of every model function (sim_*: ~50 lemmas up to runUnit, incl. the attempt loop and the reboot-wait loop by induction). Range invariants: satAdd32_le, loadFails_le, loadCtx_failures_le, failures_in_range_check / _ping (the u32 failure counter never leaves u32 for any stored value and any history step), attemptsInstall_in_range (the i64 install-attempt counter is written back as an i64 and reported as a u64 for every stored i64), durationMs_le, loadPoll_range, poll_header_le_day; check_delivers_result (every check ends with exactly one result). Tied to the code by the per-unit differential run under catch_unwind with hostile storage contents, failure masks, clock jumps and response bytes, and by the implementation-vs-implementation faulty/healthy stream.",
     "level_note": "Trusted: Lean kernel; the hand-written state-machine model; harness and diff. Two genuine defects found here were repaired upstream (KNOWN_FINDINGS.txt: fixed e81f7d7, 56a473c). Absence of panics inside serde_json / http / p256 is sampled, not proved.",
 }
+
+PROPS["C12"] = {
+    "lean_modules": ["Omaha.Props.C12"],
+    "streams": sm_stream([[r"P next", ["->", "W", "M", "C"]], [r"E sched", ["next="]], r"T arm", r"T fire",
+                          [r"P allowed", ["opts=", "->", "ok", "toosoon", "throttled", "denied"]], r"P rebootallowed",
+                          [r"H (uc|ping)", []], [r"Z ", []]]),
+    "rule": SM_RULE + "; check timings are wall-only, monotonic-only or both, with and without a minimum wait (0 s, 60 s, 1800 s); the harness Timer blocks until the script fires it, and the script fires all timers in either order, only a proper subset (the unit must then stall), or a subset followed by a control request; throttled and denied iterations are followed by further iterations; in the reboot wait the 30-minute timer, the ping timers (each subset / order) and requests are interleaved; projection: the policy's timing answers, the announced next update time, every timer armed (kind and exact value) and fired, the check / reboot questions with their options, the existence of update-check and ping requests, how the unit ended",
+    "trusted_extra": SM_TRUSTED + ["the Timer contract (a wait future completes when the harness fires it) is the harness's; futures::join semantics are modelled as 'all armed timers must have fired'"],
+    "assumptions": [],
+    "level_text": "Machine-checked Lean 4 theorems: ask_announce_arm (before a wait: policy question, ScheduleChange carrying exactly that timing, wait_for(min) iff a minimum wait is given and with exactly that duration, wait_until(time) with exactly that bound; the wait needs exactly the timers armed here), outerWait_timers_all_fired (no_early_check: the wait ends on timers only when every armed timer has fired, for every order and interleaving), outerWait_all_fired (either order suffices), outerWait_subset_waits (a proper subset never ends the wait), outerWait_ctl_first / outerWait_ctl_mem (a request ends it at once; nothing else does), scheduled_check_only_after_timers (in run, the scheduled-options policy question is asked exactly on the timers outcome); rebootWait_start (first question, 30-minute timer of exactly 1800 s, ping schedule by the same rule), rebootLoop_partial_fire / rebootLoop_last_fire_pings (ping_same_rule: the ping goes out when the last outstanding timer fires, then the timing is asked and armed again), rebootLoop_t30 (the 30-minute timer re-asks with the wait's options and is re-armed for exactly 30 minutes on refusal), rebootLoop_scheduled_ctl (a scheduled request asks nothing). Tied to state_machine.rs by the per-unit differential run with a blocking timer.",
+    "level_note": "Trusted: Lean kernel; the hand-written state-machine model; harness (blocking Timer, manual executor) and diff.",
+}
